@@ -28,11 +28,12 @@ def _line_to_exec(execs, line):
     return len(execs) - 1, len(execs[-1]) if execs else 0
 
 
-def validate(module, cfg, specdir, records, workfile, timeout=900, max_rejects=8, heap="8g", deque=False, tag=None, props=None):
+def validate(module, cfg, specdir, records, workfile, timeout=900, max_rejects=5, heap="8g", deque=False, tag=None, props=None):
     """returns (n_accepted_executions, rejects, tlc_results) where rejects is a list of dicts
     {kind: 'conformance'|'invariant', name, exec_index, line_in_exec, event, execution}"""
     execs = split_executions(records)
     index = list(range(len(execs)))
+    total, unvalidated = len(execs), 0
     rejects, results = [], []
     while execs:
         flat = [r for e in execs for r in e]
@@ -62,11 +63,13 @@ def validate(module, cfg, specdir, records, workfile, timeout=900, max_rejects=8
         rejects.append({"kind": kind, "name": name, "exec_index": index[i], "line_in_exec": k,
                         "event": execs[i][k - 1] if 0 < k <= len(execs[i]) else None, "execution": execs[i]})
         log("trace rejected: %s %s at execution %d line %d: %s" % (kind, name, index[i], k, rejects[-1]["event"]))
-        del execs[i]
-        del index[i]
+        # executions are independent: those before the rejected one have been accepted, the validation goes on with the ones after it
+        execs = execs[i + 1:]
+        index = index[i + 1:]
         if len(rejects) >= max_rejects:
+            unvalidated = len(execs)
             break
-    return len(execs), rejects, results
+    return total - len(rejects) - unvalidated, rejects, results
 
 
 def validate_independent(module, cfg, specdir, recs, workfile, tag=None, timeout=2400, heap="6g", max_rejects=5, props=None):
